@@ -12,7 +12,7 @@ for d in sorted(glob.glob(os.path.join(HERE, "seeded", "C*-*"))):
     sid = os.path.basename(d)
     if only and sid not in only:
         continue
-    prop = sid.split("-")[0]
+    prop = sid.split("-")[0].rstrip("b")
     am = json.load(open(os.path.join(d, "agent_meta.json")))
     cf = {}
     cpath = f"/tmp/confirm/{sid}.json"
@@ -24,7 +24,8 @@ for d in sorted(glob.glob(os.path.join(HERE, "seeded", "C*-*"))):
     assert sh("git -C /repo status --porcelain")[1].strip() == "", "/repo not clean"
     rc, o = sh(f"git -C /repo apply {d}/patch.diff")
     try:
-        rc, out = sh(f"./check {prop} --tier quick")
+        # never let a run against a seeded tree overwrite the committed evidence / replays
+        rc, out = sh(f"VERIF_EVIDENCE_DIR=/var/tmp/dropshot-verif/matrix-evidence VERIF_REPLAY_DIR=/var/tmp/dropshot-verif/matrix-replays ./check {prop} --tier quick")
     finally:
         sh("git -C /repo checkout -- . && git -C /repo clean -fdq")
     viol = re.findall(r"^VIOLATION property=\S+ replay=\S+ obligation=(\S+)( no-failing-input-found)?", out, re.M)
